@@ -24,7 +24,7 @@ def heldG (g : GSt) (c : Nat) : List Mx :=
 
 def heldI (pc : IPc) (c : Nat) : List Mx :=
   match pc with
-  | .w1 => [(.O, c)]
+  | .w1 | .x4s | .x4u => [(.O, c)]
   | .f1 | .f2 | .e1 => [(.U, c)]
   | .k .sigU | .k .unlockU => [(.U, c)]
   | .x0s | .x1 | .x2 => [(.U, c)]
